@@ -52,7 +52,19 @@ def run_case(case):
             raise Violation("%s: the module's DEFAULT_CONFIG was changed" % scheme, "%s:default_cfg_mutated" % scheme)
         if key.serialize() != key_raw:
             raise Violation("%s: EDBSetup changed the key" % scheme, "%s:key_mutated" % scheme)
+        if case.get("caller_edits_cfg"):
+            # the dictionary belongs to the caller, who goes on using it as a template for another service: every numeric field
+            # changes, names are dropped -- the scheme object and the index that exist already must not care
+            for k_ in list(cfg):
+                if isinstance(cfg[k_], bool):
+                    continue
+                if isinstance(cfg[k_], int) and k_ != "scheme":
+                    cfg[k_] = cfg[k_] + 1 if cfg[k_] % 2 else max(1, cfg[k_] // 2)
+                elif isinstance(cfg[k_], str) and k_ != "scheme":
+                    cfg[k_] = "edited-" + cfg[k_]
+            cfg_copy = copy.deepcopy(cfg)
         snap = edb.serialize()
+        edb_first = edb
         kws = order
         absent = [w for w, _ in SP.absent_for(case, type("B", (), {"db": db, "desc": desc, "cfg": cfg})())]
         first_answer = {}
@@ -113,19 +125,49 @@ def run_case(case):
                 raise Violation("%s: step %d: the key changed" % (scheme, step), "%s:key_mutated" % scheme)
         if db != db_copy or cfg != cfg_copy or mod_cfg.DEFAULT_CONFIG != default_copy:
             raise Violation("%s: database / config changed during the search history" % scheme, "%s:inputs_mutated_by_search" % scheme)
+        # a second scheme object of the same scheme, configured with more capacity (what a growing collection calls for), gets the
+        # same key bytes and encrypts the same database: its answers are those of the database too
+        if case.get("second_object"):
+            try:
+                cfg2 = copy.deepcopy(cfg_copy if not case.get("caller_edits_cfg") else S.public_cfg(desc.finalize(case["cfg"], db_copy)))
+                for f_, add_ in (("param_n", 3), ("param_s", None), ("param_dictionary_size", 5), ("param_max_file_size", 7)):
+                    if f_ in cfg2 and isinstance(cfg2[f_], int):
+                        cfg2[f_] = cfg2[f_] * 2 if add_ is None else cfg2[f_] + add_
+                sch2 = loader.SSEScheme(cfg2)
+                key2 = loader.SSEKey.deserialize(key_raw, loader.SSEConfig(copy.deepcopy(cfg2)))
+                edb2 = sch2.EDBSetup(key2, copy.deepcopy(db_copy))
+                for w in kws[:4] + absent[:1]:
+                    got = sch2.Search(edb2, sch2.TokenGen(key2, w)).get_result_list()
+                    if not S.result_matches(desc, got, db_copy, w):
+                        raise Violation("%s: a second scheme object (more capacity, same key bytes, same database) answers %r with %d ids, "
+                                        "expected %d" % (scheme, w, len(got), len(db_copy.get(w, []))), "%s:second_scheme_object" % scheme)
+                    got1 = sch.Search(edb_first, sch.TokenGen(key, w)).get_result_list()
+                    if not S.result_matches(desc, got1, db_copy, w):
+                        raise Violation("%s: after a second scheme object was used, the first one answers %r with %d ids, expected %d" % (
+                            scheme, w, len(got1), len(db_copy.get(w, []))), "%s:first_object_after_second" % scheme)
+            except Violation:
+                raise
+            except Exception as e:
+                raise stage_violation(scheme, "second scheme object", e)
         # index generations: the same scheme object and key encrypt the database again and again with the posting lists rotated
         # among the keywords (every earlier index is dropped first); each generation answers from ITS database
         gens = case.get("generations", 0)
         if gens and len(kws) >= 2 and len({tuple(v) for v in db.values()}) >= 2:
             import gc
             lists = [list(v) for v in db.values()]
+            last_q = None
             for g in range(1, gens + 1):
                 edb = None
                 gc.collect()
                 dbg = {w: list(lists[(i + g) % len(lists)]) for i, w in enumerate(kws)}
                 try:
                     edb = sch.EDBSetup(key, dbg)
-                    for w in kws[:4] + absent[:1]:
+                    qs = kws[:4] + absent[:1]
+                    qs = qs[-(g % len(qs)):] + qs[:-(g % len(qs))] if g % len(qs) else qs
+                    if g > 1:
+                        qs = [last_q] + [w for w in qs if w != last_q]   # the first query repeats the last one asked of the previous index
+                    last_q = qs[-1]
+                    for w in qs:
                         got = sch.Search(edb, sch.TokenGen(key, w)).get_result_list()
                         if not S.result_matches(desc, got, dbg, w):
                             raise Violation("%s: generation %d of the index (same scheme object and key, posting lists rotated) answers %r with %d "
@@ -149,6 +191,8 @@ def st_case(draw, scheme, max_ops):
     c = draw(S.st_scheme_case(scheme, max_total=120))
     c["ops"] = draw(st_ops(max_ops))
     c["mutate_results"] = draw(st.booleans())
+    c["caller_edits_cfg"] = draw(st.integers(0, 2)) == 0
+    c["second_object"] = draw(st.integers(0, 2)) == 0
     if sum(c["db"]["lens"]) <= 60 and scheme not in ("CGKO06.SSE1", "CGKO06.SSE2"):
         c["generations"] = draw(st.sampled_from([0, 0, 4, 16, 32]))
     elif sum(c["db"]["lens"]) <= 30:
@@ -181,6 +225,10 @@ def body(case, res):
         cl.append("caller_modifies_returned_results")
     if case.get("generations"):
         cl.append("index_generations:%d" % case["generations"])
+    if case.get("caller_edits_cfg"):
+        cl.append("caller_edits_its_config_dict_after_setup")
+    if case.get("second_object"):
+        cl.append("second_scheme_object_same_key")
     res.count(SP.fp_of(case) + [case["ops"], bool(case.get("mutate_results")), case.get("generations", 0)], hist or pads, cl,
               sample=dict(SP.sample_of(case), ops=case["ops"]))
     run_case(case)
